@@ -21,7 +21,10 @@ fn plan(tier: Tier) -> TextPlan {
 
 fn check_marker(t: &PosTable, what: &str, m: &Mk) -> CheckResult {
     ensure!(m.index <= t.len(), "index-out-of-input", "{what}: index {} > input length {}", m.index, t.len());
-    if m.index < t.len() {
+    // `\0` is the Input contract's end-of-input sentinel: the input ends, for the scanner, at the
+    // first NUL, and positions at or after it fall under "at the end" (I6)
+    let end = t.chars.iter().position(|c| *c == '\0').unwrap_or(t.len());
+    if m.index < end {
         // a position on the LF of a CR LF pair is inside one break: exempt (ambiguous)
         if t.chars[m.index] == '\n' && m.index > 0 && t.chars[m.index - 1] == '\r' {
             return Ok(());
@@ -310,7 +313,7 @@ impl Property for C12P {
     fn assumptions(&self) -> Vec<String> {
         vec![
             "a plain scalar with value '~' whose source is not '~' is a synthesised null and exempt from 'covers its text' (I5)".into(),
-            "markers at index == input length are exempt from the line/col equation (I6)".into(),
+            "markers at index == input length are exempt from the line/col equation (I6); a NUL character is the Input contract's end-of-input sentinel, so the input ends at the first NUL for this purpose".into(),
             "a marker on the LF of a CR LF pair is exempt (inside one break)".into(),
             "block-scalar span extent is not pinned by the statement".into(),
         ]
